@@ -459,7 +459,7 @@ def quote_cases(rng, nrandom):
 def run(chk):
     rng = chk.rng
     quick = chk.tier == "quick"
-    nseq, maxlen = (4000, 12) if quick else (40000, 16)
+    nseq, maxlen = (4000, 12) if quick else (30000, 16)
     chk.theorems("props.C13", THEOREMS, ["theories/props/C13.vo", "theories/model/StoreObs.vo"])
     cases = []
     corpus = os.path.join(common.VERIF, "corpus", "C13")
@@ -484,6 +484,11 @@ def run(chk):
             chk.count("op=" + (o[2] if o[0] == "S" else {"M": "mux-arrange", "G": "generate_id"}[o[0]]))
             chk.count("out=" + {0: "None", 1: "object", 2: "None", 3: "bool", 4: "int", 5: "list", 6: "KeyError",
                                 8: "iri"}.get(t[0][0], "other"))
+            if o[0] == "G" and t[0][0] == 8:
+                iri = bytes(t[0][1:]).decode("utf-8")
+                q = _quote(o[2])
+                first = case["gens"][o[1]][0] + (q if q else "0000")
+                chk.count("generate_id:first-candidate" if iri == first else "generate_id:after-collision-or-cached-counter")
         if fail:
             chk.count("oracle_failures")
             sig0 = f"C13:{fail[1]}:{fail[2]}"
